@@ -113,6 +113,12 @@ def navigation(b: int, x: int, y: int, viaslash: bool, v: int) -> bool:
         return ok(why(False, "does not resolve", str(j), doc, str(e)))
     if not why(got == v, "resolves elsewhere", got):
         return ok(False)
+    # where p resolves to a string (a primitive: no members), stepping by t fails, so the joined pointer does not resolve
+    sdoc: Any = "xyz"
+    for tk in reversed(exp_tokens[:-1]):
+        sdoc = {tk: sdoc, "zz": 0}
+    if not why(base.resolve(sdoc) == "xyz" and not j.exists(sdoc), "steps into a string", str(j), sdoc):
+        return ok(False)
     # two joins; a part with a leading slash replaces
     t2 = pick(PIECES, y)
     jj = base.join(t, t2)
